@@ -911,16 +911,16 @@ func (f *frame) applyMods(mods []ModLoc, envPre *env, st *state, reach, rel stri
 			st.h[k] = vc.fresh("g_"+m.Ghost, so)
 		case m.Heap != "":
 			for _, k := range envPre.heapKeysOfSpec(m.Heap) {
-				st.h[k] = vc.fresh("h_"+k, vc.heapSort(k))
+				vc.havocKey(st, k)
 			}
 		default:
 			for _, kl := range envPre.modPlace(m.Place) {
 				so := vc.heapSort(kl.key)
 				if kl.ref == "" || !strings.HasPrefix(so, "(Array Ref ") {
-					st.h[kl.key] = vc.fresh("h_"+kl.key, so)
+					vc.havocKey(st, kl.key)
 				} else {
 					inner := so[len("(Array Ref ") : len(so)-1]
-					vc.hset(st, kl.key, "(store "+vc.hget(st, kl.key)+" "+kl.ref+" "+vc.fresh("hv", inner)+")")
+					vc.hset(st, kl.key, "(store "+vc.hget(st, kl.key)+" "+kl.ref+" "+vc.freshHeap("hv", inner)+")")
 				}
 			}
 		}
@@ -1027,12 +1027,17 @@ func (f *frame) applyContract(c *Contract, rel string, callee *ssa.Function, arg
 	}
 	// frame
 	f.applyMods(c.Modifies, envPre, st, reach, rel)
-	// results
+	// results: only a callee that declares allocation yields values known to be allocated in the post-state;
+	// otherwise allocation facts about results come from the callee's postconditions alone
 	var res *sym
+	wfSt := st
+	if !declaresAlloc(c) {
+		wfSt = nil
+	}
 	if c.Pure {
-		res = f.pureResult(c, rel, args, rt, st, reach)
+		res = f.pureResult(c, rel, args, rt, wfSt, reach)
 	} else {
-		res = f.freshOf(rt, "r_"+shortName(rel), st, reach)
+		res = f.freshOf(rt, "r_"+shortName(rel), wfSt, reach)
 	}
 	var results []*sym
 	if res.tuple != nil {
@@ -1064,7 +1069,23 @@ func (f *frame) applyContract(c *Contract, rel string, callee *ssa.Function, arg
 	for _, e := range c.Ensures {
 		vc.assume(reach, envPost.boolExpr(e.E))
 	}
+	f.applyRecords(c, envPost, st, reach)
 	return res
+}
+
+func (f *frame) applyRecords(c *Contract, envPost *env, st *state, reach string) {
+	vc := f.vc
+	for _, r := range c.Records {
+		k, so, ok := vc.ghostKey(r.Ghost)
+		if !ok {
+			fail("records: unknown ghost %s", r.Ghost)
+		}
+		v := envPost.rvalue(r.E)
+		nv := vc.fresh("g_"+r.Ghost, so)
+		vc.assume(reach, eq(nv, v.t))
+		// on paths where the call is not reached the ghost keeps its value
+		st.h[k] = vc.define("g_"+r.Ghost, so, ite(reach, nv, vc.hget(st, k)))
+	}
 }
 
 func (f *frame) vcTrusted() bool { return false }
@@ -1491,8 +1512,9 @@ func (vc *FnVC) constArray(idxSort, elemSort, term string) string {
 	}
 	if !vc.declared[name] {
 		vc.declared[name] = true
-		vc.emit(fmt.Sprintf("(declare-const %s (Array %s %s))", name, idxSort, elemSort))
-		vc.emit(fmt.Sprintf("(assert (forall ((ci %s)) (! (= (select %s ci) %s) :pattern ((select %s ci)))))", idxSort, name, term, name))
+		// expanded per solver when the script is written: z3 takes (as const ...) over any term, cvc5 only over
+		// values, so cvc5 gets a declared array with a quantified axiom
+		vc.emit(fmt.Sprintf(";;CONSTARR %s\t%s\t%s\t%s", name, idxSort, elemSort, term))
 	}
 	return name
 }
